@@ -30,7 +30,7 @@ def random_config(kind, rnd, max_flen=16):
     else:
         c['biort'] = rnd.choice(['near_sym_a', 'near_sym_b', 'near_sym_b_bp', 'antonini', 'legall'])
         c['qshift'] = 'qshift_b_bp' if c['biort'] == 'near_sym_b_bp' else rnd.choice(['qshift_a', 'qshift_b', 'qshift_c'])
-        c['magbias'] = rnd.choice([1e-2, 1e-2, 1.0, 1e-3, 0.0])
+        c['magbias'] = rnd.choice([1e-2, 1e-2, 1.0, 1e-3, 0.0, 0.0])
         c['colour'] = rnd.random() < 0.3
         c['shape'] = [rnd.choice([8, 9, 12, 16, 20]), rnd.choice([8, 10, 13, 16])]
     return c
